@@ -42,7 +42,7 @@ WellFormed(x) == \A i \in 1..Len(x) : IsT(x[i]) => i = Len(x)
 RObsBase == 100000
 RECURSIVE REncList(_)
 REncList(xs) == IF xs = <<>> THEN 1 ELSE REncList(SubSeq(xs, 1, Len(xs) - 1)) * 10 + xs[Len(xs)]
-RApplyF(f, p, x) == CASE f = "inc" -> x + p [] f = "mul" -> x * p [] f = "const" -> p [] OTHER -> x
+RApplyF(f, p, x) == CASE f = "inc" -> x + p [] f = "mul" -> x * p [] f = "const" -> p [] f = "mod" -> x % p [] OTHER -> x
 RApplyP(f, p, x) == CASE f = "lt" -> x < p [] f = "ge" -> x >= p [] f = "even" -> x % 2 = 0 [] f = "true" -> TRUE [] f = "eq" -> x = p
                       [] f = "false" -> FALSE [] OTHER -> FALSE
 FirstIdx(xs, P(_)) == IF \E i \in 1..Len(xs) : P(xs[i]) THEN CHOOSE i \in 1..Len(xs) : P(xs[i]) /\ \A k \in 1..(i - 1) : ~P(xs[k]) ELSE 0
